@@ -70,6 +70,9 @@ type Stream struct {
 	NoDecode bool        `json:"nodecode"`
 	NoWire   bool        `json:"nowire"`
 	Props    []string    `json:"props"` // properties the round-trip clauses of this stream serve
+	// Lag > 0: batch k is handed to the consumer only after batch k+Lag has been produced (a queue or a
+	// retry buffer between producer and wire): an emitted BatchArrowRecords is a value of its own
+	Lag int `json:"lag"`
 	Mode     int         `json:"mode"`  // 0: inputs inside the domain of C01-C03; 2: unguarded inputs; 9: wire not walked
 }
 
@@ -567,6 +570,31 @@ func RunStreamCapture(em *Emitter, tr int, st *Stream, capt *Capture) {
 		ladders = append(ladders, &ladder{limit: l, rec: r,
 			c: arrow_record.NewConsumer(arrow_record.WithMemoryLimit(l), arrow_record.WithMeterProvider(recProvider{r: r}))})
 	}
+	type lagItem struct {
+		k      int
+		sig    string
+		bar    *colarspb.BatchArrowRecords
+		in     []*Node
+		items  int
+		nodump bool
+	}
+	var lagQ []lagItem
+	lagDecode := func(it lagItem) {
+		out, n, doc, dmsg, _ := decode(c, it.sig, it.bar)
+		if capt != nil {
+			capt.Oc = append(capt.Oc, doc)
+			capt.Out = append(capt.Out, out)
+		}
+		dev := map[string]any{"k": it.k, "sig": it.sig, "oc": doc, "err": dmsg, "n": n, "l": []any{}, "flag": boolp(healthy),
+			"a": 1, "b": it.items, "x": digestNodes(out), "bid": 0, "in": it.in}
+		if !it.nodump {
+			dev["out"] = out
+		}
+		em.Emit(tr, "Decode", dev)
+		if doc != "ok" {
+			healthy = false
+		}
+	}
 	for k, bs := range st.Batches {
 		sig := st.Signal
 		if bs.Signal != "" {
@@ -628,7 +656,7 @@ func RunStreamCapture(em *Emitter, tr int, st *Stream, capt *Capture) {
 			ev["pl"] = pls
 		}
 		em.Emit(tr, "Encode", ev)
-		if em.SW != nil && HaveProjection {
+		if em.SW != nil && HaveProjection && st.Lag == 0 {
 			sev := map[string]any{"k": k, "sig": sig, "oc": oc, "rows": boolp(itemCount(in) > 0)}
 			if oc == "ok" && bar != nil {
 				spl := []any{}
@@ -654,6 +682,14 @@ func RunStreamCapture(em *Emitter, tr int, st *Stream, capt *Capture) {
 			continue
 		}
 		if st.NoDecode {
+			continue
+		}
+		if st.Lag > 0 {
+			lagQ = append(lagQ, lagItem{k: k, sig: sig, bar: bar, in: inNodes, items: itemCount(in), nodump: bs.NoDump})
+			for len(lagQ) > st.Lag {
+				lagDecode(lagQ[0])
+				lagQ = lagQ[1:]
+			}
 			continue
 		}
 		// C14 ladder: the same batch to consumers with increasing limits
@@ -776,6 +812,9 @@ func RunStreamCapture(em *Emitter, tr int, st *Stream, capt *Capture) {
 		if len(faults) > 0 || doc != "ok" {
 			healthy = false
 		}
+	}
+	for _, it := range lagQ {
+		lagDecode(it)
 	}
 	cerr := ""
 	func() {
